@@ -205,6 +205,9 @@ pub struct CodegenContext {
     /// How deeply macro invocations are currently nested, used to detect runaway macro recursion
     macro_depth: usize,
 
+    /// How many (nested) blocks are currently being emitted to the temporary '$dummy' segment
+    dummy_segment_depth: usize,
+
     test_elements: Vec<TestElement>,
 
     source_map: SourceMap,
@@ -253,6 +256,7 @@ impl CodegenContext {
             next_macro_scope_id: 0,
             import_stack: vec![],
             macro_depth: 0,
+            dummy_segment_depth: 0,
             test_elements: vec![],
             source_map: SourceMap::default(),
         }
@@ -1283,16 +1287,20 @@ impl CodegenContext {
         f: F,
     ) -> CoreResult<()> {
         let prev_segment = self.current_segment.clone();
-        if prev_segment == Some(Identifier::new("$dummy")) {
-            // Already emitting to the dummy segment (e.g. an untaken branch nested inside another one).
-            // Removing the dummy segment when we're done would pull it out from under our caller.
-            return f(self);
+        // Uses of the dummy segment may be nested (e.g. an untaken branch inside another one, possibly with a
+        // '.segment' block in between). Only the outermost use creates and removes the dummy segment, since
+        // removing it earlier would pull it out from under our caller.
+        if self.dummy_segment_depth == 0 {
+            self.segments
+                .insert("$dummy".into(), Segment::new(SegmentOptions::default()));
         }
-        self.segments
-            .insert("$dummy".into(), Segment::new(SegmentOptions::default()));
+        self.dummy_segment_depth += 1;
         self.current_segment = Some(Identifier::new("$dummy"));
         let result = f(self);
-        self.segments.remove(&Identifier::new("$dummy"));
+        self.dummy_segment_depth -= 1;
+        if self.dummy_segment_depth == 0 {
+            self.segments.remove(&Identifier::new("$dummy"));
+        }
         self.current_segment = prev_segment;
         result
     }
